@@ -2,7 +2,14 @@
 // update_tuple_sketch<double> (p in {1, 0.9, 0.5, 0.1}) and into 2-3 partial sketches that are unioned, at
 // many checkpoints:  lb(3) <= lb(2) <= lb(1) <= est <= ub(1) <= ub(2) <= ub(3), all finite and >= 0;
 // not in estimation mode => estimate == true distinct count exactly and all bounds == estimate;
-// compact form reports the same numbers.
+// compact form reports the same numbers; with p = 1 and n <= k the sketch / union result must be exact.
+// Reuse: in 30% of the cases the sketches and a persistent union object are first driven into estimation mode
+// with unrelated keys, reset(), and only then used (all resize factors incl. X1).
+// Union programs (25% of the cases): 2-4 inputs of different lg_k / p / resize factor / fill level (exact ..
+// deep estimation) over heavily overlapping key windows, offered to one union of its own lg_k in generated order,
+// larger-lg_k-first or larger-lg_k-last (incl. the directed pattern "exact input with more than k entries, then a
+// deeply sampled input"); result after every step: chain, exactness, and the true distinct count of the combined
+// key set within 8 published standard deviations (+10) of the estimate.
 #include "vf/core.hpp"
 #include "vf/c06_common.hpp"
 #include <theta_sketch.hpp>
@@ -19,12 +26,16 @@ unsigned case_timeout_s() { return 300; }
 uint64_t num_cases(bool thorough) { return thorough ? 100000 : 5000; }
 void final_report() {}
 
-struct Cfg { uint8_t lg_k; float p; int rf; uint64_t nmax; int parts; double overlap; uint64_t base; double step; bool tuple; };
+struct Cfg { uint8_t lg_k; float p; int rf; uint64_t nmax; int parts; double overlap; uint64_t base; double step; bool tuple; bool reuse; };
 
 template<typename S> static void observe(const S& s, uint64_t n, const char* fam, const Cfg& c, const char* what) {
   const Chain ch = read_chain(s);
-  auto ctx = [&] { return std::string(what) + " lg_k=" + std::to_string(c.lg_k) + " p=" + str(c.p) + " n=" + std::to_string(n) + " retained=" + std::to_string(s.get_num_retained()) + " theta=" + str(s.get_theta()); };
+  auto ctx = [&] { return std::string(what) + " lg_k=" + std::to_string(c.lg_k) + " p=" + str(c.p) + " rf=" + std::to_string(c.rf) + " reused_after_reset=" + std::to_string(c.reuse) + " n=" + std::to_string(n) + " retained=" + std::to_string(s.get_num_retained()) + " theta=" + str(s.get_theta()); };
   check_chain_lazy(ch, fam, ctx);
+  if (c.p == 1.0f && n <= (1ULL << c.lg_k)) {   // a sketch / union of nominal size k that was offered n <= k distinct items without sampling counts them exactly
+    VF_CHECK(!s.is_estimation_mode() && ch.est == static_cast<double>(n), std::string(fam) + "|n<=k-without-sampling|not-exact", ctx() + " " + ch.to_string());
+    count("sk_nominal_exact_checks");
+  }
   if (!s.is_estimation_mode()) {
     VF_CHECK(ch.est == static_cast<double>(n), std::string(fam) + "|exact-mode|estimate-not-n", ctx() + " " + ch.to_string());
     VF_CHECK(ch.lb[1] == ch.est && ch.lb[2] == ch.est && ch.lb[3] == ch.est && ch.ub[1] == ch.est && ch.ub[2] == ch.est && ch.ub[3] == ch.est,
@@ -41,6 +52,14 @@ static void stream(const Cfg& c, Rng& r, const char* fam, const char* ufam, MK m
   SK main_sk = make();
   std::vector<SK> parts;
   for (int i = 0; i < c.parts; ++i) parts.push_back(make());
+  UN ureuse = make_union();
+  if (c.reuse) {   // drive everything into estimation mode with unrelated keys, then reset() and reuse
+    const uint64_t junk = (2ULL << c.lg_k) + r.below(4ULL << c.lg_k);
+    for (uint64_t j = 0; j < junk; ++j) { const uint64_t key = bij(~c.base + j); upd(main_sk, key); for (auto& p : parts) upd(p, key); }
+    if (main_sk.is_estimation_mode() && main_sk.get_theta() < 0.99 * c.p) count(std::string("sk_reuse_after_estimation_mode_rf") + std::to_string(c.rf));
+    ureuse.update(main_sk); ureuse.update(parts[0].compact());
+    main_sk.reset(); for (auto& p : parts) p.reset(); ureuse.reset();
+  }
   // checkpoints
   const uint64_t k = 1ULL << c.lg_k;
   std::set<uint64_t> marks = {k - 1, k, k + 1, 2 * k - 1, 2 * k, 2 * k + 1, 15 * k / 8 - 1, 15 * k / 8, 15 * k / 8 + 1, c.nmax};
@@ -50,6 +69,7 @@ static void stream(const Cfg& c, Rng& r, const char* fam, const char* ufam, MK m
     UN u = make_union();
     const auto res = u.get_result();
     observe(res, 0, ufam, c, "union of nothing");
+    if (c.reuse) { const auto res0 = ureuse.get_result(); observe(res0, 0, ufam, c, "reset union"); }
   }
   for (uint64_t i = 0; i < c.nmax; ++i) {
     const uint64_t key = bij(c.base + i);
@@ -66,21 +86,123 @@ static void stream(const Cfg& c, Rng& r, const char* fam, const char* ufam, MK m
     }
     if (static_cast<double>(n) >= next_union || n == c.nmax || n == k || n == 2 * k) {
       next_union = std::max(next_union * 1.7, next_union + 1);
-      UN u = make_union();
+      UN fresh = make_union();
+      UN& u = c.reuse ? ureuse : fresh;     // the persistent union object was reset() after its previous use
       for (int j = 0; j < c.parts; ++j) { if ((j + n) & 1) u.update(parts[j]); else u.update(parts[j].compact()); }
       const auto res = u.get_result();
-      observe(res, n, ufam, c, "union result");
+      observe(res, n, ufam, c, c.reuse ? "union result (union object reused after reset)" : "union result");
+      if (c.reuse) count("sk_reuse_union_checkpoints");
       { const auto res2 = u.get_result(); VF_CHECK(same_chain(read_chain(res2), read_chain(res)), std::string(ufam) + "|get_result|second-result-differs-from-first", "n=" + std::to_string(n)); }
       count("sk_union_checkpoints");
+      if (c.reuse) ureuse.reset();
     }
   }
+}
+
+// ------------------------------------------------------------------ union programs with mixed inputs
+struct Input { uint8_t lg_k; float p; int rf; uint64_t start, cnt; int form; int fill; };
+
+static uint64_t covered(std::vector<std::pair<uint64_t, uint64_t>> iv) {   // size of the union of half-open key-index intervals
+  std::sort(iv.begin(), iv.end());
+  uint64_t tot = 0, end = 0;
+  for (auto& x : iv) { if (x.second <= end) continue; tot += x.second - std::max(x.first, end); end = x.second; }
+  return tot;
+}
+
+template<typename SK, typename UN, typename MK, typename MKU, typename UPD>
+static void union_program(Rng& r, bool T, const char* ufam, MK make, MKU make_union, UPD upd) {
+  const uint8_t U = static_cast<uint8_t>(r.range(5, T ? 12 : 11));
+  const uint64_t kU = 1ULL << U;
+  const int urf = static_cast<int>(r.below(4));
+  const uint64_t base = r.next();
+  const uint64_t cap = T ? 300000 : 50000;
+  static const float ps[] = {1.0f, 1.0f, 1.0f, 0.5f, 0.1f};
+  std::vector<Input> in;
+  const bool directed = r.chance(0.25);
+  if (directed) {
+    // an exact input that leaves more than k (but fewer than 15k/8) entries in the union table, then a deeply sampled coarser one
+    Input a; a.lg_k = static_cast<uint8_t>(std::min<int>(13, U + static_cast<int>(r.range(1, 2)))); a.p = 1.0f; a.rf = static_cast<int>(r.below(4));
+    a.start = 0; a.cnt = kU + 1 + r.below(kU * 7 / 8 - 1); a.form = static_cast<int>(r.below(3)); a.fill = 1;
+    Input b; b.lg_k = static_cast<uint8_t>(std::max<int>(5, U - static_cast<int>(r.range(0, 3)))); b.p = ps[r.below(5)]; b.rf = static_cast<int>(r.below(4));
+    b.cnt = std::min<uint64_t>(cap, (16ULL << b.lg_k) + r.below(48ULL << b.lg_k)); b.start = r.below(a.cnt + 1); b.form = static_cast<int>(r.below(3)); b.fill = 3;
+    in.push_back(a); in.push_back(b);
+    if (r.coin()) { Input c2 = a; c2.start = r.below(b.start + b.cnt); c2.cnt = 1 + r.below(kU); c2.fill = 0; in.push_back(c2); }
+    count("sk_union_program_directed_overfull_then_low_theta");
+  } else {
+    const int nin = static_cast<int>(r.range(2, 4));
+    uint64_t span = 0;
+    for (int i = 0; i < nin; ++i) {
+      Input x; x.lg_k = static_cast<uint8_t>(std::max<int>(5, std::min<int>(13, U + static_cast<int>(r.range(-2, 3)))));
+      x.p = ps[r.below(5)]; x.rf = static_cast<int>(r.below(4)); x.form = static_cast<int>(r.below(3)); x.fill = static_cast<int>(r.below(4));
+      const uint64_t k = 1ULL << x.lg_k;
+      switch (x.fill) {
+        case 0: x.cnt = 1 + r.below(k / 2); break;                          // exact, small
+        case 1: x.cnt = k + r.below(k * 7 / 8); break;                      // exact, table above nominal size
+        case 2: x.cnt = 2 * k + r.below(6 * k); break;                      // estimation
+        default: x.cnt = 16 * k + r.below(48 * k); break;                   // deep estimation
+      }
+      x.cnt = std::min(x.cnt, cap);
+      x.start = r.below(span + 1);                                           // heavy overlap with what is already covered
+      span = std::max(span, x.start + x.cnt);
+      in.push_back(x);
+    }
+    const int order = static_cast<int>(r.below(3));
+    if (order == 1) std::stable_sort(in.begin(), in.end(), [](const Input& a, const Input& b) { return a.lg_k > b.lg_k; });
+    if (order == 2) std::stable_sort(in.begin(), in.end(), [](const Input& a, const Input& b) { return a.lg_k < b.lg_k; });
+    count(order == 0 ? "sk_union_program_order_generated" : (order == 1 ? "sk_union_program_order_larger_lg_k_first" : "sk_union_program_order_larger_lg_k_last"));
+  }
+  std::string d;
+  for (auto& x : in) d += " [lg_k=" + std::to_string(x.lg_k) + " p=" + str(x.p) + " rf=" + std::to_string(x.rf) + " keys=" + std::to_string(x.start) + "+" + std::to_string(x.cnt) + " form=" + std::to_string(x.form) + "]";
+  describe(std::string(ufam) + " program union_lg_k=" + std::to_string(U) + " union_rf=" + std::to_string(urf) + " directed=" + std::to_string(directed) + " inputs:" + d + " keybase=" + std::to_string(base));
+  UN u = make_union(U, urf);
+  std::vector<std::pair<uint64_t, uint64_t>> iv;
+  bool all_p1 = true;
+  for (size_t i = 0; i < in.size(); ++i) {
+    const Input& x = in[i];
+    SK sk = make(x.lg_k, x.p, x.rf);
+    for (uint64_t j = 0; j < x.cnt; ++j) upd(sk, bij(base + x.start + j));
+    if (x.form == 0) u.update(sk); else u.update(sk.compact(x.form == 1));
+    iv.push_back({x.start, x.start + x.cnt});
+    all_p1 = all_p1 && x.p == 1.0f && x.cnt <= (1ULL << x.lg_k);   // every input unsampled and within its own nominal size
+    count(std::string("sk_union_program_input_fill") + std::to_string(x.fill));
+    if (i + 1 < in.size() && r.coin()) continue;       // read the result after this step only sometimes (a read-out must not be needed)
+    const uint64_t n = covered(iv);
+    const auto res = u.get_result(r.coin());
+    const Chain ch = read_chain(res);
+    auto ctx = [&] { return "after input " + std::to_string(i + 1) + " true distinct=" + std::to_string(n) + " retained=" + std::to_string(res.get_num_retained()) + " theta=" + str(res.get_theta()); };
+    check_chain_lazy(ch, ufam, ctx);
+    if (!res.is_estimation_mode()) VF_CHECK(ch.est == static_cast<double>(n), std::string(ufam) + "|exact-mode|estimate-not-n", ctx() + " " + ch.to_string());
+    if (all_p1 && n <= kU) VF_CHECK(!res.is_estimation_mode() && ch.est == static_cast<double>(n), std::string(ufam) + "|n<=k-without-sampling|not-exact", ctx() + " " + ch.to_string());
+    const double sigma = std::max(ch.est - ch.lb[1], ch.ub[1] - ch.est), dn = static_cast<double>(n);
+    VF_CHECK(std::fabs(ch.est - dn) <= 8.0 * sigma + 10.0, std::string(ufam) + "|mixed-inputs|true-count-beyond-8-published-std-devs-of-estimate", ctx() + " sigma=" + str(sigma) + " " + ch.to_string());
+    count(std::string("sk_") + ufam + "_program_readouts");
+    sig(mix64(mix64(0x70 + U, res.get_num_retained()), static_cast<uint64_t>(res.get_theta() * 1e9)));
+  }
+  count(std::string("sk_") + ufam + "_programs");
 }
 
 void run_case(uint64_t idx, Rng& r) {
   (void)idx;
   seed_order(r);
   const bool T = G().thorough();
+  if (r.chance(0.25)) {
+    if (r.coin()) {
+      union_program<update_theta_sketch, theta_union>(r, T, "theta_union",
+        [](uint8_t lg, float p, int rf) { return update_theta_sketch::builder().set_lg_k(lg).set_p(p).set_resize_factor(static_cast<resize_factor>(rf)).build(); },
+        [](uint8_t lg, int rf) { return theta_union::builder().set_lg_k(lg).set_resize_factor(static_cast<resize_factor>(rf)).build(); },
+        [](update_theta_sketch& s, uint64_t key) { s.update(key); });
+    } else {
+      typedef update_tuple_sketch<double> TS;
+      union_program<TS, tuple_union<double>>(r, T, "tuple_union",
+        [](uint8_t lg, float p, int rf) { return TS::builder().set_lg_k(lg).set_p(p).set_resize_factor(static_cast<resize_factor>(rf)).build(); },
+        [](uint8_t lg, int rf) { return tuple_union<double>::builder().set_lg_k(lg).set_resize_factor(static_cast<resize_factor>(rf)).build(); },
+        [](TS& s, uint64_t key) { s.update(key, 1.0); });
+    }
+    if (want_sample()) sample("{\"config\":" + jstr(G().cur_desc) + "}");
+    return;
+  }
   Cfg c;
+  c.reuse = r.chance(0.3);
   c.tuple = r.coin();
   c.lg_k = static_cast<uint8_t>(r.range(5, T ? 13 : 11));
   static const float ps[] = {1.0f, 1.0f, 1.0f, 0.5f, 0.5f, 0.9f, 0.1f};
@@ -97,17 +219,17 @@ void run_case(uint64_t idx, Rng& r) {
   c.base = r.next();
   c.step = 1.02 + 0.2 * r.unit();
   describe(std::string(c.tuple ? "tuple" : "theta") + " lg_k=" + std::to_string(c.lg_k) + " p=" + str(c.p) + " rf=" + std::to_string(c.rf) + " n=" + std::to_string(c.nmax) +
-           " parts=" + std::to_string(c.parts) + " overlap=" + str(c.overlap) + " keybase=" + std::to_string(c.base));
+           " parts=" + std::to_string(c.parts) + " overlap=" + str(c.overlap) + " reuse_after_reset=" + std::to_string(c.reuse) + " keybase=" + std::to_string(c.base));
   if (!c.tuple) {
     stream<update_theta_sketch, theta_union>(c, r, "theta", "theta_union",
       [&] { return update_theta_sketch::builder().set_lg_k(c.lg_k).set_p(c.p).set_resize_factor(static_cast<resize_factor>(c.rf)).build(); },
-      [&] { return theta_union::builder().set_lg_k(c.lg_k).build(); },
+      [&] { return theta_union::builder().set_lg_k(c.lg_k).set_resize_factor(static_cast<resize_factor>(c.rf)).build(); },
       [](update_theta_sketch& s, uint64_t key) { s.update(key); });
   } else {
     typedef update_tuple_sketch<double> TS;
     stream<TS, tuple_union<double>>(c, r, "tuple", "tuple_union",
       [&] { return TS::builder().set_lg_k(c.lg_k).set_p(c.p).set_resize_factor(static_cast<resize_factor>(c.rf)).build(); },
-      [&] { return tuple_union<double>::builder().set_lg_k(c.lg_k).build(); },
+      [&] { return tuple_union<double>::builder().set_lg_k(c.lg_k).set_resize_factor(static_cast<resize_factor>(c.rf)).build(); },
       [](TS& s, uint64_t key) { s.update(key, 1.0); });
   }
   if (want_sample()) sample("{\"config\":" + jstr(G().cur_desc) + "}");
